@@ -543,9 +543,14 @@ func (s *Lexer) getNextToken() (*Token, error) {
 				break
 			}
 			curr_ch := s.read()
-			for curr_ch != '/' {
+			for curr_ch != '/' && curr_ch != 0 {
 				buf.WriteRune(curr_ch)
 				curr_ch = s.read()
+			}
+			if curr_ch == 0 {
+				// the input ended inside the literal
+				current_state = SERROR
+				break
 			}
 
 			current_state = SREGEXP
